@@ -2,8 +2,10 @@ package props
 
 import (
 	"bytes"
+	"errors"
 	"fmt"
 	"sort"
+	"strings"
 
 	"github.com/taurusgroup/multi-party-sig/pkg/ecdsa"
 	"github.com/taurusgroup/multi-party-sig/pkg/party"
@@ -33,7 +35,12 @@ func init() {
 	})
 }
 
-func runC06(c *fw.Ctx) {
+func runC06(c *fw.Ctx) { runEquivocation(c, false) }
+
+// runEquivocation builds one equivocation world. blameOnly (used by C04): instead of the split
+// oracles, every honest party's error is examined - an equivocating participant must not get an
+// honest one named as culprit.
+func runEquivocation(c *fw.Ctx, blameOnly bool) {
 	var sc *scen.Scenario
 	if c.S.Draw(8, "toy") == 7 {
 		// the handler's echo mechanism under round shapes no shipped protocol has (a reliable broadcast
@@ -287,6 +294,38 @@ func runC06(c *fw.Ctx) {
 	}
 	c.Res.NonTrivial = true
 	c.Fault("equivocation:"+source, 1)
+	if blameOnly {
+		isHonest := map[party.ID]bool{}
+		for _, id := range honest {
+			isHonest[id] = true
+		}
+		for _, id := range honest {
+			nd := ex.Nodes[id]
+			if nd.Dead || nd.H == nil {
+				continue
+			}
+			_, err := nd.H.Result()
+			var pe protocol.Error
+			if err == nil || !errors.As(err, &pe) {
+				var pp *protocol.Error
+				if err == nil || !errors.As(err, &pp) || pp == nil {
+					continue
+				}
+				pe = *pp
+			}
+			c.Probe("honest_errors_examined", 1)
+			if pe.Err != nil && strings.HasPrefix(pe.Err.Error(), "aborted by other party") {
+				continue
+			}
+			for _, cu := range pe.Culprits {
+				if isHonest[cu] {
+					c.Violate(fmt.Sprintf("honest-party-blamed-under-equivocation/%s/%s/r%d/%s", sc.Proto, sc.Kind, k, source), "honest party %q ended with error %q naming honest party %q; the only deviation is %q sending two versions of its round-%d broadcast (%s)", id, trimS(pe.Err.Error(), 160), cu, cheater, k, c.Res.Desc)
+				}
+			}
+		}
+		c.Res.Sample = map[string]interface{}{"desc": c.Res.Desc}
+		return
+	}
 	// ---- oracle over the recorded deliveries ----
 	type view struct{ data map[string][]byte }
 	fin := []party.ID{}
